@@ -129,19 +129,28 @@ def check_len(res, facts):
                 continue
             dep = DF.Dep(fn)
             eqs = []
+            partial = []
             for bi, si, s in fn.stmts():
                 r = s.get("r")
                 if r and r["k"] == "bin" and r["op"] in ("Eq", "Ne"):
                     la, lb = op_local(r["a"]), op_local(r["b"])
                     if la is None or lb is None:
                         continue
-                    A, B = lens_of(fn, dep, la), lens_of(fn, dep, lb)
-                    if (1 in A and 2 in B) or (2 in A and 1 in B):
+                    from rules.c07 import E as _E
+                    ea, eb = _E(fn, r["a"]), _E(fn, r["b"])
+                    L1, L2 = ("call", "len", (("arg", 1, ()),)), ("call", "len", (("arg", 2, ()),))
+                    # exactly the two lengths: `scalars.len() == min(bases.len(), scalars.len())` only tests one direction
+                    if (ea, eb) in ((L1, L2), (L2, L1)):
                         eqs.append(bi)
+                    elif (1 in lens_of(fn, dep, la) and 2 in lens_of(fn, dep, lb)) or (2 in lens_of(fn, dep, la) and 1 in lens_of(fn, dep, lb)):
+                        partial.append((ea, eb))
             clos = [facts.get(c, fn.unit) for _, t in fn.calls() if t["f"].get("name") in ("ok_or_else", "map_err", "unwrap_or_else") for c in closure_args(fn, t)]
             mins = [c for c in clos if c is not None and any(t["f"].get("name") == "min" for _, t in c.calls())]
             inline_min = any(t["f"].get("name") == "min" for _, t in fn.calls())
-            if not eqs:
+            if not eqs and partial:
+                from rules.c07 import show as _show
+                rule.bad(key, "the guard compares %s, not bases.len() with scalars.len(): a length mismatch in one direction passes and the checked entry point silently truncates" % ["%s with %s" % (_show(a_)[:50], _show(b_)[:50]) for a_, b_ in partial], fn.loc)
+            elif not eqs:
                 rule.bad(key, "no comparison bases.len() == scalars.len(): mismatched lengths are not reported", fn.loc)
             elif not (mins or inline_min):
                 rule.bad(key, "the error value is not the minimum of the two lengths", fn.loc)
@@ -502,6 +511,52 @@ def check_stream(res, facts):
     (rule.bad if problems else rule.ok)(key, "; ".join(problems) if problems else "skip(bases.len() - scalars.len()) once, then take(step) on both streams per chunk", f.loc)
 
 
+def check_buckets(res, facts):
+    """the bucket table must have room for the largest digit magnitude: the signed-digit kernel's digits come from
+    make_digits, whose last digit keeps the final carry and can reach 2^c (index 2^c - 1, so 2^c buckets); the plain
+    kernel's digits are k mod 2^c in 1 .. 2^c - 1 (index k - 1, so 2^c - 1 buckets suffice).  The width c in the table
+    size is the c that cut the scalars."""
+    from rules.c07 import E, show, norm, qeq
+    from rules.c17 import to_q, NotPoly
+    from arklib.poly import Q
+    rule = res.rule("R-BUCKETS", "bucket table size covers the largest digit: 2^c for signed digits (last digit carries), >= 2^c - 1 for plain windows; same c as the digit extraction", 2)
+    for unit in ("ws", "par"):
+        for fn in facts.fns(unit=unit, crate="ark_ec"):
+            if fn.name not in ("msm_bigint", "msm_bigint_wnaf") or fn.default_of or fn.impl or fn.kind == "Closure":
+                continue
+            key = "ark_ec|%s|%s" % (unit, fn.name)
+            hosts = [fn] + [c for c in facts.fns(unit=unit, crate="ark_ec") if c.kind == "Closure" and c.id.startswith(fn.id + "::{closure")]
+
+            def lifted(h, o):
+                return norm(DF.lift_captures(facts, h, DF.expr(h, o, depth=40)))
+            sizes = [lifted(h, t["args"][1]) for h in hosts for _, t in h.calls() if t["f"].get("name") == "from_elem" and len(t["args"]) == 2]
+            widths = [lifted(h, t["args"][1]) for h in hosts for _, t in h.calls() if t["f"].get("name") in ("make_digits", "step_by") and len(t["args"]) >= 2]
+            widths = list(dict.fromkeys(widths))
+            if len(sizes) != 1 or len(widths) != 1:
+                rule.undecided(key, "expected one bucket table and one window width, found sizes %s, widths %s" % ([show(x)[:50] for x in sizes], [show(x)[:50] for x in widths]), fn.loc)
+                continue
+            c = widths[0]
+
+            def leaf(t, c=c):
+                if t == c:
+                    return "c"
+                if isinstance(t, tuple) and t[:3] == ("bin", "Shl", 1) and t[3] == c:
+                    return "P"        # 2^c
+                return None
+            try:
+                q = to_q(sizes[0], leaf)
+            except NotPoly as e:
+                rule.undecided(key, "bucket table size %s is not an expression of 2^c (%s)" % (show(sizes[0])[:80], e), fn.loc)
+                continue
+            P = Q.var("P")
+            signed = fn.name.endswith("wnaf")
+            ok = qeq(q, P) or (not signed and qeq(q, P - Q.const(1)))
+            if ok:
+                rule.ok(key, "%s buckets for %s" % (q, "signed digits up to 2^c" if signed else "windows 1 .. 2^c - 1"), fn.loc)
+            else:
+                rule.bad(key, "the bucket table has %s entries (P = 2^c) but %s: the largest digit indexes past the table" % (q, "the last signed digit keeps the final carry and can equal 2^c, which needs index 2^c - 1" if signed else "window values reach 2^c - 1, which needs index 2^c - 2"), fn.loc)
+
+
 def run(ctx, res):
     facts = ctx.facts(["ws", "par"])
     res.analysed = facts.stats()
@@ -511,6 +566,7 @@ def run(ctx, res):
     check_window(res, facts)
     check_digits(res, facts, ctx.tier)
     check_stream(res, facts)
+    check_buckets(res, facts)
     return {
         "level": "other",
         "explanation": "Typestate / pairing rules over the MIR of ark-ec's variable-base MSM and streaming Pippenger code (serial and parallel configurations): lock-step mutation of paired buffers, length policy of checked and unchecked entry points, flush/finalize structure, window recombination. Does NOT decide that any entry point returns the sum (digit extraction and bucket indexing are run-time index arithmetic).",
